@@ -120,7 +120,7 @@ def stmt_src(s, ind):
     if k in ('load', 'store'):
         return p + '%s(%s);' % (k, expr_src(s[1]))
     if k == 'strobe':
-        return p + 'strobe(%s);' % s[1]
+        return p + ('strobe(%s[%d]);' % (s[1], s[2]) if len(s) > 2 else 'strobe(%s);' % s[1])
     if k == 'csleep':
         return p + 'csleep(%d);' % s[1]
     if k == 'asm':
@@ -396,6 +396,9 @@ class Gen:
             if kk < 0.5:
                 return ('store', ('var', r.choice(self.uchars)))
             if kk < 0.7:
+                if r.random() < 0.08:
+                    # a subscripted strobe: rejected, or a strobe of THAT address
+                    return ('strobe', r.choice(self.hwregs), r.randrange(1, 4))
                 return ('strobe', r.choice(self.hwregs))
             if kk < 0.9:
                 return ('csleep', r.choice([2, 3, 4, 5, 6, 7, 8, 9, 10]))
@@ -528,6 +531,8 @@ class Gen:
         k = r.randrange(24)
         if k == 23:
             k = 21
+        if self.o['hw'] and reg and r.random() < 0.2:
+            k = 19
         if k == 22 and self.arrays:
             # an update of one array element, then a zero test of ANOTHER element of the same array
             # (same symbol, other offset): the flags of the update do not describe it
